@@ -171,10 +171,10 @@ def run_item(item, tier):
                     ei += 1
             want_o = "".join(so).encode("latin-1")
             want_e = "".join(se).encode("latin-1")
-            for mode in ("sequential", "slot"):
+            for mode in ("sequential", "slot", "sequential-parallelizable", "sequential-j1"):
                 res["evals"] += 1
-                cond = 'run_experiment(name="e", run="./e.sh", parallelizable=%s)\n' % (mode == "slot")
-                scn = {"files": {"COND": cond}, "argv": ["run", "//:e"] + (["-j", "2"] if mode == "slot" else []),
+                cond = 'run_experiment(name="e", run="./e.sh", parallelizable=%s)\n' % (mode != "sequential")
+                scn = {"files": {"COND": cond}, "argv": ["run", "//:e"] + (["-j", "2"] if mode == "slot" else (["-j", "1"] if mode == "sequential-j1" else [])),
                        "behaviours": {"//:e": {"writes": writes}}}
                 o = explore.execute(scn, name="c10m")
                 art = {"kind": "modes", "out": item["out"], "err": item["err"]}
@@ -192,8 +192,8 @@ def run_item(item, tier):
                 if lo != want_o or le != want_e:
                     viol("modes:%s:log" % mode, "%s mode: stdout.log has %d bytes (expected %d), stderr.log %d (expected %d); chunks %r / %r"
                          % (mode, len(lo), len(want_o), len(le), len(want_e), [c[:8] for c in so], [c[:8] for c in se]), art)
-                if mode == "sequential" and (o.res.fwd_out != want_o or o.res.fwd_err != want_e):
-                    viol("modes:sequential:forward", "sequential mode: forwarded %d/%d bytes to cond's stdout/stderr, expected %d/%d"
+                if mode != "slot" and (o.res.fwd_out != want_o or o.res.fwd_err != want_e):
+                    viol("modes:%s:forward" % mode, "sequential mode: forwarded %d/%d bytes to cond's stdout/stderr, expected %d/%d"
                          % (len(o.res.fwd_out), len(o.res.fwd_err), len(want_o), len(want_e)), art)
                 if want_o or want_e:
                     res["sigs"].add(explore.sig([item["out"], item["err"], pos, mode]))
